@@ -113,9 +113,9 @@ func setupC05(x *Ctx) {
 					x.Probe("half-open")
 				}
 			case "mdns-outage":
-				r.eth.Down = true
+				r.eth.Down.Store(true)
 				simrt.Sleep(time.Duration(5+x.Choose("outage", 60)) * time.Second)
-				r.eth.Down = false
+				r.eth.Down.Store(false)
 				r.eth.resync()
 			}
 		}
